@@ -160,7 +160,7 @@ def entityP (fuel : Nat) (ns : Ns) : List Name → Prog (Res Unit)
 
 /-- `reflect(subject)` (the reflected defs; `compute_entity_type` only runs its loop when `entity` is a def) -/
 def reflectP (fuel : Nat) (ns : Ns) (r : Rec) : Prog (Res (List Name)) :=
-  (findSupP fuel ns.defs (tagDefs ns r ++ findConjuncts ns (markerTags ns r)) []).bind fun rv =>
+  (findSupP fuel ns.defs (tagDefs ns r ++ findConjuncts ns (markerTags r)) []).bind fun rv =>
     match rv with
     | .ok ds =>
       if defined ns.defs entityName then
